@@ -636,8 +636,18 @@ class ListenerRequestHandler(BaseHTTPRequestHandler):
         # Content-Range, Expires, If-Range, Range.
 
         # Start processing the request
-        content_len = int(self.headers.get('Content-Length', 0))
-        body = self.rfile.read(content_len)
+        content_len_str = self.headers.get('Content-Length', '0')
+        try:
+            content_len = int(content_len_str)
+            if content_len < 0:
+                raise ValueError("negative value")
+            body = self.rfile.read(content_len)
+        except (ValueError, OverflowError) as exc:
+            self.send_http_error(
+                400, "request-not-valid",
+                _format("Invalid Content-Length header value: {0!A} ({1})",
+                        content_len_str, exc))
+            return
 
         try:
             msgid, methodname, params = self.parse_export_request(body)
